@@ -19,7 +19,7 @@
 extern "C" void *vf_malloc(size_t);
 extern "C" void vf_free(void *);
 
-enum { KBuf = 1, KHmeta, KReply, KRawdata, KGeninfo, KMetabuf, KCxxref, KBare, KStream };
+enum { KBuf = 1, KHmeta, KReply, KRawdata, KGeninfo, KMetabuf, KCxxref, KBare, KStream, KOutLocal, KOutRemote, KIterFile };
 
 /* counted through reference<Thing>::type; storage goes through the allocation seam */
 class Thing
